@@ -247,4 +247,89 @@ theorem splitOnceCpp_eq : ∀ (fmt : List Char), splitOnceCpp fmt = splitOnce fm
               subst h2
               simp [shiftE, ho, h1, h3]
 
+/-! ### `_replace_all` as written = the one-pass rewrite -/
+
+theorem findAt_some_decomp (pred : List Char → Bool) : ∀ (s a b : List Char), findAt pred s = some (a, b) →
+    s = a ++ '%' :: b := by
+  intro s
+  induction s with
+  | nil => intro a b h; simp [findAt] at h
+  | cons c rest ih =>
+    intro a b h
+    rw [findAt_cons] at h
+    by_cases hc : c = '%' ∧ pred rest = true
+    · rw [if_pos hc] at h
+      simp only [Option.some.injEq, Prod.mk.injEq] at h
+      obtain ⟨rfl, rfl⟩ := h
+      simp [hc.1]
+    · rw [if_neg hc] at h
+      cases hf : findAt pred rest with
+      | none => simp [hf] at h
+      | some ab =>
+        obtain ⟨a', b'⟩ := ab
+        simp only [hf, Option.map_some, Option.some.injEq, Prod.mk.injEq] at h
+        obtain ⟨rfl, rfl⟩ := h
+        simp [ih a' b' hf]
+
+theorem replaceAll_nil' (c : Char) (new : List Char) : replaceAll c new [] = [] := by rw [replaceAll.eq_def]
+
+/-- the one-pass rewrite satisfies the loop equation of the C++ -/
+theorem replaceAll_find (c : Char) (new : List Char) : ∀ (s : List Char),
+    replaceAll c new s =
+      match findAt (startsWith [c]) s with
+      | none => s
+      | some (a, b) => a ++ new ++ replaceAll c new (b.drop 1) := by
+  intro s
+  induction s with
+  | nil => simp [findAt, replaceAll_nil']
+  | cons x rest ih =>
+    rw [findAt_cons]
+    by_cases hx : x = '%' ∧ startsWith [c] rest = true
+    · obtain ⟨hx1, hx2⟩ := hx
+      obtain ⟨r, hr⟩ := (startsWith_single _ _).1 hx2
+      subst hx1; subst hr
+      rw [if_pos ⟨rfl, hx2⟩, replaceAll.eq_def]
+      simp
+    · rw [if_neg hx]
+      have hstep : replaceAll c new (x :: rest) = x :: replaceAll c new rest := by
+        rw [replaceAll.eq_def]
+        cases rest with
+        | nil => simp [replaceAll_nil']
+        | cons b r =>
+          have : ¬ (x = '%' ∧ b = c) := by
+            intro hh
+            exact hx ⟨hh.1, (startsWith_single _ _).2 ⟨r, by rw [hh.2]⟩⟩
+          simp [this]
+      rw [hstep, ih]
+      cases findAt (startsWith [c]) rest with
+      | none => rfl
+      | some ab => obtain ⟨a, b⟩ := ab; simp
+
+/-- **the loop of `_replace_all` computes the one-pass rewrite** -/
+theorem replaceAllCppF_eq (c : Char) (new : List Char) : ∀ (f : Nat) (s : List Char), s.length ≤ f →
+    replaceAllCppF f c new s = replaceAll c new s := by
+  intro f
+  induction f with
+  | zero =>
+    intro s h
+    have : s = [] := List.eq_nil_of_length_eq_zero (by omega)
+    subst this
+    simp [replaceAllCppF, replaceAll_nil']
+  | succ f ih =>
+    intro s h
+    rw [replaceAll_find c new s]
+    simp only [replaceAllCppF]
+    cases hf : findAt (startsWith [c]) s with
+    | none => rfl
+    | some ab =>
+      obtain ⟨a, b⟩ := ab
+      have hd := findAt_some_decomp _ s a b hf
+      have hlen : (b.drop 1).length ≤ f := by
+        have : s.length = a.length + 1 + b.length := by rw [hd]; simp; omega
+        simp only [List.length_drop]; omega
+      simp only [ih _ hlen]
+
+theorem replaceAllCpp_eq (c : Char) (new : List Char) (s : List Char) : replaceAllCpp c new s = replaceAll c new s :=
+  replaceAllCppF_eq c new s.length s (Nat.le_refl _)
+
 end Time
